@@ -47,12 +47,27 @@ class Index(list):
         return Index([v - o for v in self])
 
     def __getitem__(self, k):
+        if hasattr(k, "_v") and hasattr(k, "index"):
+            k = k.values
+        if isinstance(k, SArray) or (isinstance(k, list) and not isinstance(k, Index)):
+            ks = list(k.items) if isinstance(k, SArray) else list(k)
+            if ks and all(isinstance(m, (bool, core.SBool)) for m in ks) or (isinstance(k, SArray) and k.dtype.kind == "b"):
+                if len(ks) != len(self):
+                    raise IndexError("boolean index did not match indexed array along axis 0")
+                return Index([v for v, m in zip(self, ks) if m])
+            return Index([list.__getitem__(self, int(i)) for i in ks])
         r = list.__getitem__(self, k)
         return Index(r) if isinstance(k, slice) else r
 
     @property
     def values(self):
         return SArray(list(self))
+
+    def to_numpy(self, *a, **k):
+        return SArray(list(self))
+
+    def __len__(self):
+        return list.__len__(self)
 
     def __eq__(self, o):
         return list.__eq__(self, list(o)) if isinstance(o, (list, tuple)) else NotImplemented
@@ -213,6 +228,52 @@ class Series(_HasIndex):
 
     def __or__(self, o):
         return self._bin(o, lambda a, b: a | b)
+
+    __rand__ = __and__
+    __ror__ = __or__
+
+    def eq(self, o):
+        return self.__eq__(o)
+
+    def ne(self, o):
+        return self.__ne__(o)
+
+    def lt(self, o):
+        return self.__lt__(o)
+
+    def le(self, o):
+        return self.__le__(o)
+
+    def gt(self, o):
+        return self.__gt__(o)
+
+    def ge(self, o):
+        return self.__ge__(o)
+
+    def between(self, lo, hi, inclusive="both"):
+        if inclusive != "both":
+            raise Unsupported("between(inclusive=%r)" % (inclusive,))
+        return (self >= lo) & (self <= hi)
+
+    def notna(self):
+        return ~self.isna()
+
+    notnull = notna
+
+    def duplicated(self, keep="first"):
+        return self.to_frame().duplicated(keep=keep)
+
+    def count(self):
+        return symnp.count_nonzero(self.notna().values)
+
+    def __radd__(self, o):
+        return self._bin(o, lambda a, b: b + a)
+
+    def __rsub__(self, o):
+        return self._bin(o, lambda a, b: b - a)
+
+    def __rmul__(self, o):
+        return self._bin(o, lambda a, b: b * a)
 
     def __add__(self, o):
         return self._bin(o, lambda a, b: a + b)
@@ -723,7 +784,9 @@ class DataFrame(_HasIndex):
             d[c] = d[c].astype(t)
         return d
 
-    def reindex(self, idx=None, columns=None):
+    def reindex(self, idx=None, columns=None, index=None):
+        if idx is None:
+            idx = index
         if idx is None:
             raise Unsupported("reindex(columns=)")
         return self.loc[list(idx.items if isinstance(idx, SArray) else idx), :]
@@ -802,6 +865,15 @@ class DataFrame(_HasIndex):
             self._c, self._index = d._c, d.index
             return None
         return d
+
+    def duplicated(self, subset=None, keep="first"):
+        if keep not in ("first", "last"):
+            raise Unsupported("duplicated(keep=%r)" % (keep,))
+        kept = self.drop_duplicates(subset=subset, keep=keep).index
+        keptset = list(kept)
+        if len(set(map(repr, self.index))) != len(self.index):
+            raise Unsupported("duplicated() on a frame with a non-unique index")
+        return Series([lab not in keptset for lab in self.index], self.index, dtype=bool_)
 
     def to_dict(self, orient="dict"):
         if orient != "records":
